@@ -224,16 +224,18 @@ def show(t):
             if a["af"] <= a["at"]:
                 s += "~as(%d..%d:%s)" % (a["af"], a["at"], show(a["asty"]))
             return s
-        return "struct%s%s{%s}" % ("(C)" if t["s"] == "C" else "", "(tuple)" if t["n"] else "",
+        return "struct%s%s{%s}" % ("(C)" if t["s"] == "C" else "", "(tuple)" if t["n"] == 1 else "<T>" if t["n"] == 2 else "",
                                     ",".join(fld(i) for i in range(len(t["ts"]))))
     if k == "enum":
         if t["n"] > 0:
             return "enum#%s[%d units]" % (t["s"], t["n"])
         def var(v):
             s = "V"
-            if v["ts"]:
+            if v["ts"] and v["s"] == "{}":
+                s += "{" + ",".join(show(x) for x in v["ts"]) + "}"
+            elif v["ts"]:
                 s += "(" + ",".join(show(x) for x in v["ts"]) + ")"
-            if v["s"]:
+            if v["s"] and v["s"] != "{}":
                 s += "=" + v["s"]
             if v["n"]:
                 s += "@%d.." % v["n"]
@@ -308,7 +310,7 @@ class Verdict:
 def _enum_unit_and_payload(e):
     return (e["k"] == "enum" and e["s"] != "" and e["n"] == 0
             and any(len(v["ts"]) == 0 for v in e["ts"]) and any(len(v["ts"]) > 0 for v in e["ts"])
-            and all(v["s"] == "" for v in e["ts"]))
+            and all(v["s"] in ("", "{}") for v in e["ts"]))      # implicit discriminants (tuple-like or named fields)
 
 @predicate
 def repr_enum_unit_beside_payload_in_bulk(subject):
